@@ -261,7 +261,10 @@ int main(int argc, char** argv) {
             face_type_parameters ft;
             ft.name_ = "f" + std::to_string(k);
             ft.face_type_global_id_ = (short)(ct->global_type_id_ == 0 ? k : 3);
-            ft.surface_tension_ = 1e-3; ft.adherence_strength_ = 1e9; ft.repulsion_strength_ = 1e9; ft.bending_modulus_ = C.has("kb") ? C["kb"].d() : 0.;
+            // different values per face type and per kind of strength, so that exchanging two of them on the way from the parameters
+            // to the forces changes the run
+            ft.surface_tension_ = 1e-3 * (1. + 0.2 * (double)k); ft.adherence_strength_ = 1e9 * (1. + 0.1 * (double)k); ft.repulsion_strength_ = 1.3e9 * (1. + 0.3 * (double)k);
+            ft.bending_modulus_ = C.has("kb") ? C["kb"].d() * (1. + 0.5 * (double)k) : 0.;
             ct->add_face_type(ft);
         }
         cell_ptr c;
